@@ -139,6 +139,17 @@ def store_terms(b, tm, field):
     return out
 
 
+def _sub(t, out=None):
+    out = [] if out is None else out
+    if isinstance(t, tuple):
+        if t and isinstance(t[0], str):
+            out.append(t)
+        for x in t:
+            if isinstance(x, tuple):
+                _sub(x, out)
+    return out
+
+
 def rule_automaton(facts):
     r = report.RuleResult("C01.R2", "state transitions, repeat-distance rotation, copy length and distance terms are the format's")
     b = pat.body_of(facts, "DecoderState::process_next_inner")
@@ -146,29 +157,91 @@ def rule_automaton(facts):
     if b is None:
         return r
     tm = Terms(b)
-    st0 = store_terms(b, tm, "state")
-    st = []
-    for bb, t in st0:
-        if t[0] == "phi" and isinstance(t[1], tuple):
-            st.extend((bb, x) for x in t[1])
-        else:
-            st.append((bb, t))
-    consts = sorted({t[1] for _, t in st if t[0] == "const"})
-    subs = sorted({t[2][1] for _, t in st if t[0] == "Sub" and t[2][0] == "const" and pat.has_field(t[1], "state")})
-    r.sites = len(st)
-    if consts == [0, 7, 8, 9, 10, 11] and subs == [3, 6]:
-        r.ok("table", {"state constants": consts, "literal decrements": subs})
-    else:
-        r.bad("automaton|constants", "state update constants are %s / decrements %s; the format has 0,7,8,9,10,11 / 3,6"
-              % (consts, subs), pat.where(b))
-    # thresholds: guards comparing the state field with 4, 10 (literal) and 7 (others)
     gs, _ = pat.guards(b)
-    thr = sorted({s[2][1] for (_, t, _, _) in gs for s in [pat.cmp_sides(t)] if s and s[0] == "Lt" and
-                  pat.has_field(s[1], "state") and s[2][0] == "const" and not pat.has_op(s[1], ("Shl", "Add"))})
-    if thr == [4, 7, 10]:
-        r.ok("table", {"state thresholds": thr})
+    # the 12-state automaton, decided by gated evaluation: every store to `state` is a function of the old state; the
+    # symbol kind of a store is read off the decision bits (is_match / is_rep / is_rep_g0 / is_rep_0long) that dominate it
+    from engine.flow import PosTerms
+    pt = PosTerms(b)
+    c = cfg(b)
+    term_at = lambda b_: pt.at(b_.idx, None).of_operand(b_.term.discr)
+    TABLES = ("is_match", "is_rep_g0", "is_rep_g1", "is_rep_g2", "is_rep_0long", "is_rep")
+
+    def table_of(t):
+        for q in _sub(t):
+            if q[0] == "call" and q[1].endswith("decode_bit") and len(q[2]) > 1:
+                for f_ in TABLES:
+                    if any(z[0] == "field" and z[1] == f_ for z in _sub(q[2][1])):
+                        return f_
+        return None
+
+    def kind_of(bb):
+        sig = {}
+        for (gb, t, cond) in pat.branch_conditions(b, c, bb, term_at):
+            if t[0] == "discr":
+                continue
+            tb = table_of(t)
+            if tb:
+                sig[tb] = 0 if cond == ("is", 0) else 1
+        if sig == {"is_match": 0}:
+            return "literal"
+        if sig == {"is_match": 1, "is_rep": 0}:
+            return "match"
+        if sig == {"is_match": 1, "is_rep": 1, "is_rep_g0": 0, "is_rep_0long": 0}:
+            return "short rep"
+        if sig == {"is_match": 1, "is_rep": 1}:
+            return "rep"
+        return "? %s" % sorted(sig.items())
+    WANT = {"literal": [0, 0, 0, 0, 1, 2, 3, 4, 5, 6, 4, 5], "match": [7] * 7 + [10] * 5, "rep": [8] * 7 + [11] * 5,
+            "short rep": [9] * 7 + [11] * 5}
+    seen = {}
+    nst = 0
+    for blk in b.blocks:
+        if blk.cleanup:
+            continue
+        for i, s_ in enumerate(blk.stmts):
+            if not (s_.k == "assign" and s_.place.proj and s_.place.proj[-1][0] == "field" and s_.place.proj[-1][2] == "state"):
+                continue
+            nst += 1
+            kind = kind_of(blk.idx)
+            vec = []
+            try:
+                for st_ in range(12):
+                    leaf = lambda q, st_=st_: st_ if (q[0] == "field" and q[1] == "state") else (_ for _ in ()).throw(pat.NotEvaluable(q))
+                    if s_.rv.k == "use" and s_.rv.op.place is not None and not s_.rv.op.place.proj:
+                        vec.append(pat.eval_gated(b, pt, s_.rv.op.place.local, blk.idx, leaf, i))
+                    else:
+                        vec.append(pat.eval_term(pt.at(blk.idx, i).of_rvalue(s_.rv, blk.idx), leaf))
+            except (pat.NotEvaluable, pat.Overflow):
+                r.bad("automaton|state-term:%s" % kind, "cannot evaluate the next state after a %s as a function of the state" % kind,
+                      pat.where(b, blk.idx), "unverifiable")
+                continue
+            if kind not in WANT:
+                r.bad("automaton|state-kind", "the state is updated on a path that is not one of the four symbol kinds (%s)" % kind,
+                      pat.where(b, blk.idx), "unverifiable")
+            elif vec != WANT[kind]:
+                k = [j for j in range(12) if vec[j] != WANT[kind][j]][0]
+                r.bad("automaton|state:%s" % kind, "after a %s in state %d the decoder goes to state %s, the format says %d" % (kind, k, vec[k], WANT[kind][k]),
+                      pat.where(b, blk.idx))
+            else:
+                seen[kind] = True
+                r.ok("evaluation", {"after a %s" % kind: "state' = %s for states 0..11" % WANT[kind]})
+            # the update happens only when committing
+    r.sites = nst
+    for kind in WANT:
+        if kind not in seen and not any(kind in f.key for f in r.findings):
+            r.bad("automaton|state-missing:%s" % kind, "no state update after a %s" % kind, pat.where(b))
+    # which length coder: a new match uses len_decoder, a repeated match rep_len_decoder; a short rep copies one byte
+    lens = {}
+    for blk in b.calls():
+        nm = flow.callee(blk.term) or ""
+        if nm.endswith("LenDecoder::decode"):
+            recv = tm.of_operand(blk.term.args[0])
+            fld = "rep_len_decoder" if pat.has_field(recv, "rep_len_decoder") else "len_decoder" if pat.has_field(recv, "len_decoder") else "?"
+            lens[kind_of(blk.idx)] = fld
+    if lens == {"match": "len_decoder", "rep": "rep_len_decoder"}:
+        r.ok("table", {"length coder": lens})
     else:
-        r.bad("automaton|thresholds", "state thresholds are %s; the format has <4, <7, <10" % thr, pat.where(b))
+        r.bad("automaton|len-coder", "length coders are used as %s; the format: match -> len_decoder, rep -> rep_len_decoder" % lens, pat.where(b))
     # rotation: rep[i+1] = rep[i]; rep[3]=rep[2]; rep[2]=rep[1]; rep[1]=rep[0]
     rot = []
     for blk in b.blocks:
